@@ -154,3 +154,35 @@ Proof.
   repeat split; try reflexivity; try discriminate.
   intros H. inversion H as [|? ? B _]. cbv in B. discriminate.
 Qed.
+
+(* the secondary query (session 4).  An AAAA question "H.Ex.T." (mixed case):
+   the lookup asks for A of that very spelling, RD set, CD clear, and the
+   reply is synthesised; a pass-through asks nothing.  A PTR question for the
+   name of 64:ff9b::192.0.9.1: the chase asks for 1.9.0.192.in-addr.arpa.
+   PTR, the reply's CNAME points there; the not-wired Queryer is not asked.
+   Nested prefixes (2001:db8::/32 before 2001:db8:122::/48): the address
+   embedded under the /48 is still decoded — by the /48 — and chased. *)
+Definition ex_q_mixed : query := mk_query 1 1 28 (bs "H.Ex.T.") true false true false [203; 0; 113; 9].
+Definition ex_q_ptr (name : list N) : query := mk_query 1 1 12 name true false true false [203; 0; 113; 9].
+Definition ex_ptr_resp : msg := mk_msg false 1 0 false None [RPTR (bs "1.9.0.192.in-addr.arpa.") 77 (bs "host.t.")] [].
+Definition ex_p32 : ipnet := mk_net [32; 1; 13; 184; 0; 0; 0; 0; 0; 0; 0; 0; 0; 0; 0; 0] 32 16.
+Definition ex_nested_cf : config := mk_config [Some ex_p32; Some ex_p48] [] [] None None.
+Example ex_sub_query :
+  let x := serve cur ad_witness_cf ex_q_mixed (Some (ex_down, 0)) false (QResp ttl_witness_a) None in
+  x_path x = PSynth
+  /\ sub_query cur ad_witness_cf ex_q_mixed (Some (ex_down, 0)) false (QResp ttl_witness_a) None
+     = Some (mk_subq (bs "H.Ex.T.") 1 1 true false)
+  /\ sub_query cur ad_witness_cf ex_q_mixed (Some (mk_msg false 1 3 false (Some []) [] [], 0)) false (QResp ttl_witness_a) None = None
+  /\ (let qp := ex_q_ptr (arpa_name (embed wkp_net [192; 0; 9; 1])) in
+      sub_query cur ad_witness_cf qp None false (QResp ex_ptr_resp) None
+        = Some (mk_subq (bs "1.9.0.192.in-addr.arpa.") 12 1 true false)
+      /\ x_reply (serve cur ad_witness_cf qp None false (QResp ex_ptr_resp) None)
+         = Some (mk_reply false 0 false []
+                   [RCNAME (q_name qp) 600 (bs "1.9.0.192.in-addr.arpa."); RPTR (bs "1.9.0.192.in-addr.arpa.") 77 (bs "host.t.")])
+      /\ sub_query cur ad_witness_cf qp None false QNone None = None)
+  /\ (let qn := ex_q_ptr (arpa_name (embed ex_p48 ex_v4)) in
+      c_prefixes (compile ex_nested_cf) = [mk_cprefix ex_p32 false; mk_cprefix ex_p48 false]
+      /\ net_contains16 ex_p32 (embed ex_p48 ex_v4) = true /\ extract cur ex_p32 (embed ex_p48 ex_v4) = None
+      /\ sub_query cur ex_nested_cf qn None false QNilResp None
+         = Some (mk_subq (bs "33.2.0.192.in-addr.arpa.") 12 1 true false)).
+Proof. vm_compute. repeat split; reflexivity. Qed.
